@@ -4,6 +4,7 @@ from __future__ import annotations
 
 from typing import TYPE_CHECKING
 
+from pest.grammar import Group
 from pest.grammar import Identifier
 from pest.grammar.rule import SILENT
 from pest.grammar.rule import BuiltInRule
@@ -31,6 +32,15 @@ def inline_silent_rules(expr: Expression, rules: Mapping[str, Rule]) -> Expressi
     if isinstance(expr, Identifier):
         rule = rules.get(expr.value)
         # A reference to an undefined rule is left for parse time to report.
-        if rule and rule.modifier & SILENT:
+        # WHITESPACE and COMMENT are implicitly atomic, which their expression
+        # alone is not.
+        if (
+            rule
+            and rule.modifier & SILENT
+            and rule.name not in ("WHITESPACE", "COMMENT")
+        ):
+            if expr.tag:
+                # Keep the tag for the first pair produced by the inlined rule.
+                return Group(rule.expression, tag=expr.tag)
             return rule.expression
     return expr
